@@ -263,6 +263,17 @@ func (r *reporter) report(sig, format string, args ...any) {
 
 func (r *reporter) failed() bool { return r.o.Fail != nil }
 
+// allocClass tells the two ways of exceeding the bound apart by the mean size
+// of the allocations: a size field taken from the input ("big-blocks": few
+// allocations of many MiB) versus super-linear work ("many-small").
+func allocClass(m0, m1 *runtime.MemStats) string {
+	n := m1.Mallocs - m0.Mallocs
+	if n == 0 || (m1.TotalAlloc-m0.TotalAlloc)/n >= 64<<10 {
+		return "big-blocks"
+	}
+	return "many-small"
+}
+
 func allocBound(n, threads int) uint64 {
 	return 64<<20 + 8*uint64(n+threads*readMax)
 }
@@ -374,8 +385,8 @@ func runOnce(input []byte, cfg runCfg, rep *reporter) *runResult {
 		}
 	}
 	if d, b := res.allocDelta-min(res.allocDelta, harnessBytes), allocBound(len(input), cfg.Threads); d > b {
-		rep.report("C11/alloc/"+kind, "%s: reading %d input bytes allocated %d bytes (TotalAlloc delta), bound 64MiB+8*(len+threads*Max) = %d; reader %q, %d values, err=%v",
-			cfg, len(input), d, b, res.reader, res.values, res.err)
+		rep.report("C11/alloc/"+kind+"/"+allocClass(&m0, &m1), "%s: reading %d input bytes allocated %d bytes in %d allocations (TotalAlloc delta), bound 64MiB+8*(len+threads*Max) = %d; reader %q, %d values, err=%v",
+			cfg, len(input), d, m1.Mallocs-m0.Mallocs, b, res.reader, res.values, res.err)
 	}
 	return res
 }
@@ -494,15 +505,19 @@ func vngPreflight(meta []byte, rep *reporter) (ok bool) {
 	zctx := zed.NewContext()
 	var m0, m1 runtime.MemStats
 	runtime.ReadMemStats(&m0)
-	defer func() {
-		// readMetadata's reader runs with the default Max of 1 GiB whatever the
-		// caller configured: a compressed frame announcing a large size makes
-		// it allocate that much (+25%) before looking at the payload.
+	checkAlloc := func(sig, what string) {
 		runtime.ReadMemStats(&m1)
 		if d := m1.TotalAlloc - m0.TotalAlloc; d > allocBound(len(meta)+vng.HeaderSize, 1) {
-			rep.report("C11/alloc/vng", "decoding the %d-byte VNG metadata section the way vng.readMetadata does (zngio reader with default options, Max = 1 GiB) allocated %d bytes", len(meta), d)
+			rep.report(sig+"/"+allocClass(&m0, &m1), "%s allocated %d bytes in %d allocations (VNG metadata section of %d bytes)", what, d, m1.Mallocs-m0.Mallocs, len(meta))
 			ok = false
 		}
+		m0 = m1
+	}
+	// readMetadata's reader runs with the default Max of 1 GiB whatever the
+	// caller configured: a compressed frame announcing a large size makes it
+	// allocate that much (+25%) before looking at the payload.
+	defer func() {
+		checkAlloc("C11/alloc/vng", "decoding the metadata section the way vng.readMetadata does (zngio reader with default options, Max = 1 GiB)")
 	}()
 	if p := catch(func() {
 		r := zngio.NewReaderWithOpts(zctx, bytes.NewReader(meta), zngio.ReaderOpts{Threads: 1})
@@ -524,6 +539,10 @@ func vngPreflight(meta []byte, rep *reporter) (ok bool) {
 	if val == nil {
 		return true
 	}
+	checkAlloc("C11/alloc/vng", "decoding the metadata section the way vng.readMetadata does (zngio reader with default options, Max = 1 GiB)")
+	defer func() {
+		checkAlloc("C11/alloc/typevalue", "Context.DecodeTypeValue on the type values of the metadata")
+	}()
 	for _, tv := range oracle.TypeLeaves(*val) {
 		tv := tv
 		if p := catch(func() { zctx.DecodeTypeValue(tv) }); p != nil {
